@@ -650,10 +650,13 @@ class PreludeMixin:
             return [(st, SVal(KStr, [ops.str_concat(parts)]))]
         if meth == 'isdigit':
             return [(st, SB(self.is_digits(z)))]
-        if meth == 'split' and args and isinstance(args[0], str) and (len(args) == 1 or isinstance(args[1], int)):
+        if meth in ('split', 'rsplit') and args and isinstance(args[0], str) and (len(args) == 1 or isinstance(args[1], int)):
             # s.split(sep[, maxsplit]): a list of 1 .. maxsplit+1 parts; the parts are functions of (s, sep, maxsplit, i)
-            # (spec: split_part / split_count); nothing else about them is assumed
+            # (spec: split_part / split_count); nothing else about them is assumed.  rsplit: the same shape, other
+            # functions (the separator string is tagged)
             mx = args[1] if len(args) > 1 else -1
+            if meth == 'rsplit':
+                args = ['rsplit\x00' + args[0]] + list(args[1:])
             cnt = SPLIT_COUNT(z, z3.StringVal(args[0]), z3.IntVal(mx))
             st.assume(cnt >= 1)
             if mx >= 0:
@@ -820,6 +823,23 @@ class PreludeMixin:
                         dflt = self.coerce_to(st, dflt, v.kind)
                     return [(st, ops.ite(has, v, dflt))]
                 return [(st, v)]
+        if meth == 'update' and len(args) == 1 and isinstance(args[0], SVal) and args[0].kind == k:
+            # d.update(e) on two JSON objects of the same record class: every key of e is laid over d (a key with a
+            # has_<key> flag only when e holds it)
+            other = args[0]
+            for f in sc.fields:
+                if f.startswith('has_'):
+                    continue
+                nv = self.read_field(st, st.heap, other.z, k.cls, f)
+                if ('has_' + f) in sc.fields:
+                    oh = self.read_field(st, st.heap, other.z, k.cls, 'has_' + f)
+                    ov = self.read_field(st, st.heap, recv.z, k.cls, f)
+                    mh = self.read_field(st, st.heap, recv.z, k.cls, 'has_' + f)
+                    self.write_field(st, recv.z, k.cls, f, ops.ite(oh.z, nv, ov))
+                    self.write_field(st, recv.z, k.cls, 'has_' + f, SB(z3.Or(oh.z, mh.z)))
+                else:
+                    self.write_field(st, recv.z, k.cls, f, nv)
+            return [(st, None)]
         raise CheckerError('record method %s' % meth)
 
     def none_of(self, kind):
